@@ -6,7 +6,7 @@ namespace Generated.BuildFlags
 open BuildIR
 
 /-- `Graph.to_onnx_model`, with parameters as `build` passes them: {'check_model': 1, 'concrete': True, 'infer_shapes': False, 'ir_version': 8, 'model_doc_string': '', 'producer_name': 'spox'} -/
-def toOnnxModelIR : List Stmt := [.assign 0, .ifUnknown [.raise] [], .touch 0, .assign 1, .assign 2, .ifUnknown [.touch 1, .touch 3, .assign 4, .ifUnknown [.other] [], .assign 5, .ifUnknown [.raise] [], .touch 2] [], .touch 2, .touch 6, .touch 7, .touch 0, .assign 8, .ifKnown true [.assign 9, .touch 8, .touch 9, .touch 9, .check 9], .ifKnown false [.touch 8, .assign 8], .ret (some 8)]
+def toOnnxModelIR : List Stmt := [.assign 0, .ifUnknown [.raise] [], .touch 0, .assign 1, .assign 2, .ifUnknown [.touch 1, .touch 3, .assign 4, .ifUnknown [.other] [], .assign 5, .ifUnknown [.raise] [], .touch 2] [], .touch 2, .touch 6, .touch 7, .touch 0, .assign 8, .ifKnown false [.touch 8, .assign 8], .ifKnown true [.check 8], .ret (some 8)]
 
 /-- `spox.build` -/
 def buildIR : List Stmt := [.touch 0, .ifUnknown [.touch 1, .assign 2, .raise] [], .touch 0, .ifUnknown [.touch 1, .assign 2, .raise] [], .ifUnknown [.raise] [], .ifUnknown [.raise] [], .assign 3, .ifUnknown [.touch 3, .assign 3] [], .touch 3, .assignCallee 4, .ifUnknown [.raise] [], .ret (some 4)]
